@@ -16,3 +16,5 @@ def run(chk, args):
     mc_shapley(chk, "box2", 2, "box", False, ["Identity", "NonNegative", "ZeroIffDegenerate", "Dominates"])
     mc_shapley(chk, "box3", 3, "box", False, ["Identity", "NonNegative", "ZeroIffDegenerate", "Dominates"])
     validate_shapley(chk, "expl", "2,3,4,5,6,7" if q else "2,3,4,5,6,7,8", 30 if q else 250, 6 if q else 8)
+    # 9 and 10 players (2^n beyond 256): sparse bound vectors, numerators inside 32 bits
+    validate_shapley(chk, "expl", "9,10", 10 if q else 60, 6)
